@@ -126,7 +126,7 @@ fn rpc_kind(r: &Rpc) -> &'static str {
         Rpc::Query { .. } => "Query",
         Rpc::BulkQuery { .. } => "BulkQuery",
         Rpc::Search { .. } => "Search",
-        Rpc::BulkSearch { .. } => "BulkSearch",
+        Rpc::BulkSearch { .. } | Rpc::BulkSearchMixed { .. } => "BulkSearch",
         Rpc::UpdateMetadata { .. } => "UpdateMetadata",
         Rpc::Delete { .. } => "Delete",
         Rpc::BatchDeleteIds { .. } => "BatchDelete(ids)",
